@@ -166,7 +166,7 @@ Lemma ws_ins_skip_ws : forall o c s, is_ws c = true -> ws_ins (c :: s) o -> ws_i
 Proof.
   induction o as [|x o' IH]; intros c s Hc H; inversion H; subst.
   - apply wi_ws; auto.
-  - apply wi_ws; auto. eapply IH; eauto.
+  - apply wi_ws; [assumption|]. apply IH with c; assumption.
 Qed.
 
 Lemma ws_insb_complete : forall o s, ws_ins s o -> ws_insb s o = true.
@@ -174,10 +174,10 @@ Proof.
   induction o as [|x o' IH]; intros s H; cbn.
   - inversion H; auto.
   - destruct s as [|c s'].
-    + inversion H; subst. rewrite H2. cbn. auto.
+    + inversion H as [| |w s0 o0 Hw H0]; subst. rewrite Hw. cbn. auto.
     + destruct (N.eqb_spec c x) as [->|Hne].
-      * inversion H; subst; auto.
-        apply IH. eapply ws_ins_skip_ws; eauto.
-      * inversion H; subst; [congruence|].
-        match goal with Hw : is_ws x = true |- _ => rewrite Hw end. cbn. auto.
+      * inversion H as [|c0 s0 o0 H0|w s0 o0 Hw H0]; subst; auto.
+        apply IH. apply ws_ins_skip_ws with x; assumption.
+      * inversion H as [|c0 s0 o0 H0|w s0 o0 Hw H0]; subst; [congruence|].
+        rewrite Hw. cbn. auto.
 Qed.
